@@ -1311,6 +1311,18 @@ fn c09(ctx: &Ctx, col: &mut Collector, extra: &mut serde_json::Value) {
                     } else {
                         None
                     };
+                    // "presented as four hex-coded digits": the report of each carrier prints them
+                    // (DF5 as four digits, DF21 and type 28 without leading zeros)
+                    if let Res::Ok(ok) = &o.res {
+                        if let Some(text) = &ok.display {
+                            let abcd = vref::altitude::squawk(code);
+                            let want = if strip { format!("  Squawk:        {abcd:x}\n") } else if path == "df.id.0" { format!("  Identity:      {abcd:04x}\n") } else { format!("    Squawk:        {abcd:x}\n") };
+                            col.count("identity_lines_read", 1);
+                            if (!strip || text.contains("Emergency/priority status")) && text.matches(want.as_str()).count() != 1 {
+                                col.add(fnd("C09", "identity_not_in_report", if strip { "tc28" } else if path == "df.id.0" { "df5" } else { "df21" }, format!("identity code {code:013b} = {abcd:04x}: the report has no (single) line {want:?}: {text:?}"), json!({"code": code, "frame": hex(m)})));
+                            }
+                        }
+                    }
                     vals.push(v);
                 }
                 col.count("codes_x_carriers", 3);
